@@ -3,6 +3,7 @@ package val
 import (
 	"fmt"
 	"math"
+	"reflect"
 	"sort"
 	"strconv"
 
@@ -62,6 +63,10 @@ func snap(sb *[]byte, o tengo.Object, on map[interface{}]bool, depth int) {
 		snapMap(sb, "immap", x, x.Value, on, depth)
 	case *tengo.CompiledFunction:
 		w("func/compiled")
+		if on[deepFuncs{}] {
+			// length only: operand bytes hold global indexes, which Script assigns in map-iteration order
+			w(fmt.Sprintf("#%d/%d/%d", len(x.Instructions), x.NumParameters, x.NumLocals))
+		}
 		if on[deepFuncs{}] && len(x.Free) > 0 && !on[x] {
 			on[x] = true
 			w("{free:")
@@ -88,6 +93,16 @@ func snap(sb *[]byte, o tengo.Object, on map[interface{}]bool, depth int) {
 		w(")")
 	default:
 		w(fmt.Sprintf("<%T>", o))
+		if on[deepFuncs{}] {
+			// iterators: position and length are part of the future behaviour (unexported ints, read reflectively)
+			if rv := reflect.ValueOf(o); rv.Kind() == reflect.Ptr && rv.Elem().Kind() == reflect.Struct {
+				for _, fn := range []string{"i", "l"} {
+					if f := rv.Elem().FieldByName(fn); f.IsValid() && f.Kind() == reflect.Int {
+						w(fn + "=" + strconv.FormatInt(f.Int(), 10) + ";")
+					}
+				}
+			}
+		}
 	}
 }
 
